@@ -155,6 +155,172 @@ def run_bondgo(src, rsize, workdir, delay_ms=0, deadline=20):
     return text, p.stdout, ("error" if "Error:" in p.stdout else "")
 
 
+# ---------------------------------------------------------------- control flow (differential: no Coq source semantics yet)
+
+def gen_cf_prog(rnd):
+    """loops with init/post statements, if true/false, break, continue, ++/--; returns (source, writes predicted by Go semantics)"""
+    nv = rnd.randint(1, 3)
+    nouts = rnd.randint(1, 2)
+    rsize = rnd.choice([8, 16])
+    lines = []
+    py = []      # the same program as Python source over v[], with w.append((out, value)) for writes
+
+    def expr():
+        k = rnd.randrange(6)
+        a = rnd.randrange(nv)
+        if k < 2:
+            return "reg_v%d" % a, "v[%d]" % a
+        if k < 3:
+            c = rnd.choice([0, 1, 2, 5, 9])
+            return str(c), str(c)
+        b = rnd.randrange(nv)
+        if k < 5:
+            return "reg_v%d + reg_v%d" % (a, b), "(v[%d] + v[%d]) %% M" % (a, b)
+        c = rnd.choice([2, 3])
+        return "reg_v%d * %d" % (a, c), "(v[%d] * %d) %% M" % (a, c)
+
+    def simple(ind, pind):
+        k = rnd.randrange(10)
+        if k < 5:
+            g, p = expr()
+            o = rnd.randrange(nouts)
+            lines.append(ind + "bondgo.IOWrite(out%d, %s)" % (o, g))
+            py.append(pind + "w.append((%d, %s))" % (o, p))
+        elif k < 7:
+            a = rnd.randrange(nv)
+            g, p = expr()
+            lines.append(ind + "reg_v%d = %s" % (a, g))
+            py.append(pind + "v[%d] = %s" % (a, p))
+        else:
+            a = rnd.randrange(nv)
+            if rnd.random() < 0.5:
+                lines.append(ind + "reg_v%d++" % a)
+                py.append(pind + "v[%d] = (v[%d] + 1) %% M" % (a, a))
+            else:
+                lines.append(ind + "reg_v%d--" % a)
+                py.append(pind + "v[%d] = (v[%d] - 1) %% M" % (a, a))
+
+    def loop(depth, ind, pind):
+        a = rnd.randrange(nv)
+        init = rnd.choice([0, 1, 3])
+        form = rnd.randrange(3)
+        if form == 0:
+            lines.append(ind + "for {")
+            py.append(pind + "while True:")
+            py.append(pind + "    tick()")
+            post = None
+        else:
+            inc = form == 1
+            lines.append(ind + "for reg_v%d = %d; ; reg_v%d%s {" % (a, init, a, "++" if inc else "--"))
+            py.append(pind + "v[%d] = %d" % (a, init))
+            py.append(pind + "first = True")
+            py.append(pind + "while True:")
+            py.append(pind + "    tick()")
+            # Go: the post statement runs before every iteration but the first, also after continue
+            py.append(pind + "    if not first: v[%d] = (v[%d] %s 1) %% M" % (a, a, "+" if inc else "-"))
+            py.append(pind + "    first = False")
+        if rnd.random() < 0.7:
+            o = rnd.randrange(nouts)
+            lines.append(ind + "\tbondgo.IOWrite(out%d, reg_v%d)" % (o, a))
+            py.append(pind + "    w.append((%d, v[%d]))" % (o, a))
+        n = rnd.randint(2, 5)
+        exits = False
+        for k in range(n):
+            c = rnd.randrange(10)
+            if c < 5:
+                simple(ind + "\t", pind + "    ")
+            elif c < 7:
+                cond = rnd.random() < 0.5
+                kind = rnd.choice(["continue", "continue", "continue", "break", "write", "write"])
+                lines.append(ind + "\tif %s {" % ("true" if cond else "false"))
+                py.append(pind + "    if %s:" % ("True" if cond else "False"))
+                simple(ind + "\t\t", pind + "        ")
+                if kind != "write":
+                    lines.append(ind + "\t\t" + kind)
+                    py.append(pind + "        " + kind)
+                lines.append(ind + "\t}")
+            elif depth < 1 and c < 8:
+                loop(depth + 1, ind + "\t", pind + "    ")
+            else:
+                simple(ind + "\t", pind + "    ")
+        lines.append(ind + "}")
+
+    for _ in range(rnd.randint(0, 2)):
+        simple("\t", "")
+    loop(0, "\t", "")
+    for _ in range(rnd.randint(0, 2)):
+        simple("\t", "")
+    ty = "uint%d" % rsize
+    head = ["package main", "", "import (", "\t\"bondgo\"", ")", "", "func main() {"]
+    head += ["\tvar out%d bondgo.Output" % o for o in range(nouts)] + ["\tvar reg_v%d %s" % (i, ty) for i in range(nv)]
+    head += ["\tout%d = bondgo.Make(bondgo.Output, %d)" % (o, o + 3) for o in range(nouts)]
+    # a program whose main returns has no defined continuation on the machine (the ROM beyond the program is not code, and the
+    # simulator treats a jump to the end address as a fall-through): every generated program ends in an idle loop
+    src = "\n".join(head + lines + ["\tfor {", "\t}", "}", ""])
+    # predicted writes
+    env = {"v": [0] * nv, "w": [], "M": 1 << rsize}
+    steps = [0]
+
+    class Stop(Exception):
+        pass
+
+    def tick():
+        steps[0] += 1
+        if steps[0] > 400 or len(env["w"]) > 60:
+            raise Stop()
+    env["tick"] = tick
+    code = "\n".join(py)
+    try:
+        # nested loops reuse the name 'first': give every loop its own by indentation depth
+        exec(compile(code, "<generated>", "exec"), env)
+    except Stop:
+        pass
+    return src, env["w"], rsize, nouts, code
+
+
+def control_flow_part(res, rnd, a, work):
+    viol = []
+    n = 20 if a.tier == "quick" else 120
+    done = 0
+    for k in range(n):
+        src, want, rsize, nouts, code = gen_cf_prog(rnd)
+        meta = {"source": src}
+        res.count_case({"src": src}, nontrivial=True)
+        asm, log, st = run_bondgo(src, rsize, work)
+        if st == "timeout":
+            viol.append(("the compiler does not terminate on a program with loops", meta))
+            continue
+        if st == "error" or asm is None:
+            viol.append(("the compiler rejects a program of the accepted subset: %s" % (log or "")[-300:], meta))
+            continue
+        prog = [l.strip() for l in asm.splitlines() if l.strip()]
+        m = re.search(r"Registersize: (\d+)", log or "")
+        nregs = int(m.group(1)) if m else 4
+        R = max(1, (nregs - 1).bit_length())
+        O = max(2, len(prog).bit_length())
+        ops = sorted(set(l.split()[0] for l in prog) | {"nop", "j"})
+        spec = {"rsize": rsize, "procs": [{"arch": {"R": R, "N": 0, "M": nouts, "L": 0, "O": O, "ops": ops, "mode": "ha", "rsize": rsize}, "prog": prog}],
+                "inputs": 0, "outputs": nouts, "bonds": [["o%d" % o, "p0o%d" % o] for o in range(nouts)]}
+        ticks = 600
+        r = simlib.run_sims([{"bm": spec, "env": [], "ticks": ticks}])[0]
+        if r.get("err"):
+            viol.append(("the emitted assembly cannot be assembled or simulated: %s" % r["err"], meta))
+            continue
+        got = []
+        pc = 0
+        for t in r["ticks"]:
+            if pc < len(prog) and prog[pc].startswith("r2o "):
+                w = prog[pc].split()
+                got.append((int(w[2][1:]), t["procs"][0]["regs"][int(w[1][1:])]))
+            pc = t["procs"][0]["pc"]
+        done += 1
+        want = [tuple(x) for x in want]
+        mlen = min(len(got), len(want))
+        if got[:mlen] != want[:mlen] or (mlen == 0 and (got or want)):
+            viol.append(("the compiled program writes %s, Go semantics gives %s" % (got[:12], want[:12]), meta))
+    return viol, done
+
+
 def run(res, a):
     failed = C.proof_part(res, "C12", trusted=[
         "Front/BondgoProto.v (worker protocol LTS) and Front/Bondgo.v (code generation for the register-variable subset) are "
@@ -208,6 +374,9 @@ def run(res, a):
                 m = re.search(r"Registersize: (\d+)", reqs)
                 rows.append("(%s, %s, %d, %d%%N)" % (coq_prog(stmts), C.cq_list(terms), int(m.group(1)) if m else 0, rsize))
                 metas.append(meta)
+        cf_viol, cf_done = control_flow_part(res, rnd, a, work)
+        viol += cf_viol
+        res.coverage["control_flow_programs_compared"] = cf_done
     finally:
         shutil.rmtree(work, ignore_errors=True)
     if rows:
